@@ -2,7 +2,7 @@
     Property theorems only: statements in full, each closed by [exact] of a lemma proved elsewhere.
     [gen_*] are regenerated on every run from the running `sample` methods of /repo (gen/GenC03.v). *)
 From Coq Require Import Reals List String Bool Arith.
-From Leaspy Require Import Base.RAux Sampler.SamplerModel Sampler.SamplerProofs Sampler.SamplerTie.
+From Leaspy Require Import Base.RAux Sampler.SamplerModel Sampler.SamplerProofs Sampler.MixtureProofs Sampler.SamplerTie.
 From LeaspyGen Require Import GenC03.
 Import ListNotations.
 Local Open Scope R_scope.
@@ -14,6 +14,49 @@ Theorem C03_rule : forall pa na pr nr tinv : R,
   gen_alpha_ind pa na pr nr tinv = exp (- ((na - pa) + tinv * (nr - pr))).
 Proof. intros. split; [rewrite tie_alpha_pop | rewrite tie_alpha_ind]; apply alpha_eq. Qed.
 Print Assumptions C03_rule.
+
+(** Mixture model (per-cluster prior terms): the threshold the individual step computes — traced with 2 and with 3
+    clusters — is exp(-D) with the regularity of EACH state weighted by the responsibilities
+    softmax_k(max(-S_k, -100)) of THAT state (S = nll_regul_ind_sum_ind row before / after the proposal). *)
+Theorem C03_rule_mixture :
+  (forall pa na s00 s01 r00 r01 s10 s11 r10 r11 tinv : R,
+     gen_alpha_ind_mix2 pa na s00 s01 r00 r01 s10 s11 r10 r11 tinv
+     = exp (- ((na - pa) + tinv * (cluster_weighted [s10; s11] [r10; r11] - cluster_weighted [s00; s01] [r00; r01])))) /\
+  (forall pa na s00 s01 s02 r00 r01 r02 s10 s11 s12 r10 r11 r12 tinv : R,
+     gen_alpha_ind_mix3 pa na s00 s01 s02 r00 r01 r02 s10 s11 s12 r10 r11 r12 tinv
+     = exp (- ((na - pa) + tinv * (cluster_weighted [s10; s11; s12] [r10; r11; r12] - cluster_weighted [s00; s01; s02] [r00; r01; r02])))) /\
+  gen_ind_resp_node = "nll_regul_ind_sum_ind"%string.
+Proof. split; [|split]; intros; [rewrite tie_alpha_ind_mix2 | rewrite tie_alpha_ind_mix3 | exact tie_resp_node]; apply alpha_mix_eq. Qed.
+Print Assumptions C03_rule_mixture.
+
+(** The responsibilities are positive and sum to one, so the regularity read is a convex combination of the per-cluster
+    prior terms (between the smallest and the largest); with a single cluster it is the plain prior term. *)
+Theorem C03_mixture_weights : forall S, S <> [] ->
+  List.length (resp_weights S) = List.length S /\ Forall (fun w => 0 < w) (resp_weights S) /\ sum_R (resp_weights S) = 1 /\
+  (forall Rk lo hi, List.length S = List.length Rk -> Forall (fun x => lo <= x <= hi) Rk -> lo <= cluster_weighted S Rk <= hi) /\
+  (forall s r, cluster_weighted [s] [r] = r).
+Proof. exact mixture_weights. Qed.
+Print Assumptions C03_mixture_weights.
+
+(** The individual step of the mixture model: one proposal for all rows; decision j compares u_j with exp(-D_j), the
+    regularity before weighted by the responsibilities of the current state, the one after by those of the proposed state. *)
+Theorem C03_ind_decision_mixture : forall (attach_ind : tens R -> list R) (Ssum Rvar : tens R -> list (list R)) tinv sds x tp y tp' acc,
+  ind_step attach_ind (regul_mix Ssum Rvar) tinv sds x tp = Some (y, tp', acc) ->
+  exists rows rows',
+    x = Nd rows /\
+    add_noise_rows Rplus Rmult sds rows (normals tp) = Some (rows', normals tp') /\
+    y = Nd (mix_rows acc rows rows') /\
+    List.length acc = List.length rows /\
+    uniforms tp' = skipn (List.length rows) (uniforms tp) /\ normals tp' = skipn (size x) (normals tp) /\
+    (forall j u a b S0 R0 S1 R1,
+        nth_error (uniforms tp) j = Some u ->
+        nth_error (attach_ind x) j = Some a -> nth_error (attach_ind (Nd rows')) j = Some b ->
+        nth_error (Ssum x) j = Some S0 -> nth_error (Rvar x) j = Some R0 ->
+        nth_error (Ssum (Nd rows')) j = Some S1 -> nth_error (Rvar (Nd rows')) j = Some R1 ->
+        exists d, nth_error acc j = Some d /\
+          (d = true <-> u < exp (- ((b - a) + tinv * (cluster_weighted S1 R1 - cluster_weighted S0 R0))))).
+Proof. exact ind_step_mixture_sound. Qed.
+Print Assumptions C03_ind_decision_mixture.
 
 (** Accepted exactly when the uniform draw is strictly below exp(-D) (both comparisons as the code writes them,
     and the model's boolean). *)
